@@ -184,3 +184,14 @@ Definition view_mark (r : route) (chain : list N) (b : bitmap) (off len : N) : b
   val_or b (view_mark_o r chain b off len).
 Definition view_dirty_at (r : route) (chain : list N) (b : bitmap) (off : N) : bool :=
   val_or false (view_dirty_at_o r chain b off).
+
+(* ------------------------------------------------------------------ the constructors with an IMPLICIT page size (add-only, w6)
+   atomic_bitmap.rs:189-194  impl Default:  AtomicBitmap::new(0, 0x1000)
+   atomic_bitmap.rs:196-220  impl NewBitmap: with_len(len) = AtomicBitmap::new(len, sysconf(_SC_PAGE_SIZE))
+     (both unwraps succeed: the page size is positive and fits a usize).  [host_page] is the value sysconf
+     reports on the host the correspondence runs on (4096; the harness refuses to run the case otherwise).
+   atomic_bitmap_arc.rs:59-69 (crate-private AtomicBitmapArc): default = new(AtomicBitmap::default()),
+     with_len(len) = new(AtomicBitmap::with_len(len)) - an Arc around the same value. *)
+Definition host_page : N := 4096.
+Definition bm_default : bitmap := bm_new 0 4096.
+Definition bm_with_len (len : N) : bitmap := bm_new len host_page.
